@@ -10,7 +10,7 @@ META = {
     'bounds': {
         'quick': 'whole expand(): all ASCII strings len<=2 under 3 markup configurations (default, jsx, wrap text list); stylesheet '
                  'tokenizer+parser: all ASCII strings len<=2 in both modes; whole expand() on all sequences '
-                 'of <=3 pieces from a 39-piece markup alphabet / 26-piece stylesheet alphabet under the default configurations and '
+                 'of <=3 pieces from a 39-piece markup alphabet / 31-piece stylesheet alphabet (incl. function openers after names, keywords and numbers) under the default configurations and '
                  'of <=2 pieces under 15 more configurations (jsx, wrap text, BEM+comments, context, xml, pug, haml, slim, xsl, stylus, '
                  'json, value/section context)',
         'thorough': 'len<=2 under all 11 markup configurations, len 3 for default markup; stylesheet parser len<=3; <=3 pieces under all 17 configurations',
@@ -47,7 +47,7 @@ CONFIGS = {
 M_PIECES = ['a', 'Ab', '$', '$$@-', '$@^^', '$@3', '$#', '*', '*3', '>', '+', '^', '(', ')', '[', ']', '{', '}', '.', '#', '/', '=',
             '"', "'", ' ', '${1}', '${a}', '${2:x}', '\\', '!', ':', '-', '@', '1', '={', '${', '_m', 'lorem', 'lorem2']
 C_PIECES = ['p', '10', '-', '#', 'f', '.5', '!', '+', '(', ')', ',', ':', '"', "'", '$', '@', '${1}', 'lg', ' ', '%', '/', '--', 't',
-            'e', '${a}', 'x']
+            'e', '${a}', 'x', 'a(', '1(', 'p:', 'b(', 's(']
 
 
 def make_cfg(name):
